@@ -102,11 +102,15 @@ Combos(w) ==
   LET s == w.sig
       n == NP(s) - w.k
       ts == ThisSeq(s)
+      M == Max2(Len(ts), MaxDom(SubSeq(s.ps, 1, n), 1))
+      \* a covering diagonal, two rounds with different strides: every value of every position (and every
+      \* object as `this`) occurs, and positions are paired differently in the second round
+      Off(i, j) == IF i <= M THEN 2 * (j - 1) ELSE 3 * (j - 1) + 1
+      Diag == {<<ts[((i - 1) % Len(ts)) + 1],
+                 [j \in 1..n |-> LET d == DomSeq(s.ps[j]) IN d[((i - 1 + Off(i, j)) % Len(d)) + 1]]>> : i \in 1..(2 * M)}
   IN IF Len(ts) = 0 \/ \E j \in 1..n : Len(DomSeq(s.ps[j])) = 0 THEN {}
-     ELSE IF Mode = "single" /\ ~FullCross
-     THEN {<<ts[((i - 1) % Len(ts)) + 1],
-             [j \in 1..n |-> LET d == DomSeq(s.ps[j]) IN d[((i - 1 + 2 * (j - 1)) % Len(d)) + 1]]>> :
-              i \in 1..Max2(Len(ts), MaxDom(SubSeq(s.ps, 1, n), 1))}
+     ELSE IF Mode = "single" /\ (~FullCross \/ n > 2) THEN Diag
+     ELSE IF Mode = "single" THEN Diag \cup {<<ts[1], a>> : a \in Tuples(s.ps, n)}     \* every pair of boundary values
      ELSE {<<o, a>> : o \in SeqToSet(ts), a \in Tuples(s.ps, n)}
 
 \* seq mode: call what has been called least (so that every variant gets its MinCalls)
